@@ -58,6 +58,7 @@ class Stats:
         self.skipped_budget = 0
         self.excluded_known = 0
         self.timeouts = 0
+        self.timeout_cases: list[Any] = []
         self.extra: Counter[str] = Counter()
 
     def count(self, cls: str, n: int = 1) -> None:
@@ -84,6 +85,9 @@ class Stats:
         self.skipped_budget += other.skipped_budget
         self.excluded_known += other.excluded_known
         self.timeouts += other.timeouts
+        for c in other.timeout_cases:
+            if len(self.timeout_cases) < 5:
+                self.timeout_cases.append(c)
         self.extra.update(other.extra)
 
 
@@ -176,6 +180,8 @@ def safe_evaluate(mod, case, st: Stats) -> tuple[list[Failure], str | None]:
         return list(res), None
     except HarnessTimeout:
         st.timeouts += 1
+        if len(st.timeout_cases) < 3:
+            st.timeout_cases.append(case)
         return [], None
     except MemoryError:
         st.timeouts += 1
@@ -481,6 +487,7 @@ def write_evidence(ctx: RunCtx, wall: float) -> None:
         "skipped_budget": st.skipped_budget,
         "excluded_known": st.excluded_known,
         "timeouts_inconclusive": st.timeouts,
+        "timeout_cases": st.timeout_cases,
         "known_findings_reproduced": ctx.known_lines,
         "notes": ctx.notes,
         "violation_buckets": [b for b, _ in ctx.violations],
